@@ -110,8 +110,11 @@ fn scenario(rng: &mut Rng, append_mode: bool, events: &Events, problems: &mut Ve
     // every fourth append-mode scenario has a successor: a second appender opened on the same path while the first
     // is alive (what a reconfiguration does) - it takes over after the threads are done and appends one more record,
     // which has to land at the end of the file as it is then
-    let successor: Option<FileAppender> = if append_mode && run_no % 4 == 2 {
-        Some(FileAppender::builder().append(true).encoder(Box::new(ShapeEncoder { events: events.clone() })).build(&path).unwrap())
+    let successor: Option<FileAppender> = if run_no % 4 == 2 {
+        // (in truncate mode the successor truncates the file the first appender has just truncated; it never writes -
+        // without O_APPEND its records would land on top of the first appender's - but what the first appender
+        // acknowledges afterwards must still be readable at the path)
+        Some(FileAppender::builder().append(append_mode).encoder(Box::new(ShapeEncoder { events: events.clone() })).build(&path).unwrap())
     } else {
         None
     };
@@ -188,7 +191,7 @@ fn scenario(rng: &mut Rng, append_mode: bool, events: &Events, problems: &mut Ve
     for h in handles {
         problems.extend(h.join().unwrap());
     }
-    if let Some(b) = successor {
+    if let Some(b) = successor.filter(|_| append_mode) {
         drop(appender);
         let (t, i, shape) = (1u64, first_plan_len + 1, vec![2u64, 1]);
         TID.with(|x| *x.borrow_mut() = (t, i, shape.clone()));
